@@ -96,6 +96,23 @@ def opFirstLast (kv : KV) : Option String := do
   let sh := fun (rs : List (List Int)) => if n == 0 then "-" else "|".intercalate (rs.map showInts)
   pure s!"model={sh rows} spec={sh specRows} w={w}"
 
+def opCum (kv : KV) : Option String := do
+  let op ← parseCumOp (← get kv "op")
+  let k ← parseKind (← get kv "kind")
+  let skipna ← parseNat (← get kv "skipna")
+  let codes ← parseIntList (← get kv "codes")
+  let vals ← parseValList (← get kv "vals")
+  let mask ← parseMask (← get kv "mask")
+  if codes.length ≠ vals.length then none
+  let sel ← match mask with
+    | .none => some (List.replicate codes.length true)
+    | .bool m => if m.length = codes.length then some m else none
+    | _ => none
+  let rows := (codes.zip (vals.zip sel)).map fun (c, v, s) => (⟨c, v, s⟩ : CRow)
+  let model := cumulativeReduce (op.red generatedReducers k (skipna != 0)) (op.init k) rows
+  let spec := if skipna != 0 then showOptVals (specCum op k rows) else "na"
+  pure s!"model={showOptVals model} spec={spec}"
+
 def opScalar (kv : KV) : Option String := do
   let fn ← get kv "fn"
   let k ← parseKind (← get kv "kind")
@@ -117,6 +134,7 @@ def step (line : String) : String :=
       | "gb" => opGb kv
       | "fact" => opFact kv
       | "nth" => opNth kv
+      | "cum" => opCum kv
       | "firstlast" => opFirstLast kv
       | "mono" => opMono kv
       | _ => none
